@@ -159,7 +159,17 @@ func verifC06History() {
 				rec = vRecord(22, 0x0303, vCat([]byte{8}, vU24(2), vBytes(2)))
 			}
 			before := len(tr.out)
-			n, err := c.Write(rec)
+			var n int
+			var err error
+			if sp := []int{0, 5, 1, 6}[vInt(0, 1+2*vTier())]; sp > 0 && sp < len(rec) {
+				// the backend's record arrives split over two Write calls
+				n1, err1 := c.Write(rec[:sp])
+				vAssert(err1 == nil && n1 == sp, "first part of a split backend record accepted")
+				n, err = c.Write(rec[sp:])
+				n += n1
+			} else {
+				n, err = c.Write(rec)
+			}
 			vAssert(err == nil && n == len(rec), "backend record accepted")
 			vAssert(len(tr.out) == before+len(rec) && vBytesEq(tr.out[before:], rec), "backend record forwarded unchanged")
 			continue
